@@ -150,6 +150,12 @@ pub fn run(seed: u64, out: &str, millis: u64) -> bool {
         if !done.load(Ordering::SeqCst) { sink.both("# hang shutdown()_did_not_return_under_load"); sink.flush(); std::process::exit(3); }
         stop.store(true, Ordering::SeqCst);
         for thread in threads { let _ = thread.join(); }
+        // after shutdown() the worker answers whatever still arrives with ShuttingDown for as long as the cache (and with it
+        // the sender) lives: it must still be there, blocked at its queue, not gone
+        std::thread::sleep(Duration::from_millis(60));
+        let worker_state = match verif::view("worker") { Some(view) => if view.finished { "finished" } else { "alive" }, None => "unknown" };
+        writeln!(sink.input, "L worker-after-shutdown {}", worker_state).unwrap();
+        writeln!(sink.implementation, "R ok").unwrap();
         // non-blocking acquisitions attempted by the crate (read BEFORE anything of the harness probes a lock)
         let mut tries: Vec<String> = lock_api::verif_log::tries().iter().map(|t| class_of(t)).collect();
         tries.sort(); tries.dedup();
